@@ -311,6 +311,25 @@ func DrawFieldOfType(rt *rapid.T, e *Enc, ty int, tag int, depth int, label stri
 	case WList:
 		compound = true
 		n := rapid.IntRange(0, 3).Draw(rt, label+".n")
+		if depth <= 1 && rapid.IntRange(0, 11).Draw(rt, label+".bulk") == 0 {
+			// a long list of small structs: flat, well-formed, but more nested fields in one
+			// message than any nesting bound a skipper may keep
+			n = rapid.SampledFrom([]int{1025, 1100, 2100}).Draw(rt, label+".bulkn")
+			withMember := rapid.Bool().Draw(rt, label+".bulkm")
+			e.Head(WList, tag)
+			o := len(e.Buf)
+			e.Int(int64(n), 0)
+			e.site(o, 2)
+			for i := 0; i < n; i++ {
+				e.Head(WStructBegin, 0)
+				if withMember {
+					e.Head(WByte, 1)
+					e.Buf = append(e.Buf, byte(i))
+				}
+				e.Head(WStructEnd, 0)
+			}
+			return
+		}
 		e.Head(WList, tag)
 		o := len(e.Buf)
 		e.Int(int64(n), 0)
